@@ -105,7 +105,7 @@ theorem fOf_eq {c t x : Bool} {k : Cls} (h : clsOfCode c t x = some k) (k' : Cls
 theorem cls_ofSel (l : List (Ref × Row)) (k : Cls) : (ofSel l).cls k = pick (fOf k) l := by
   cases k <;> rfl
 
-/-- the three column tests of a row -/
+/-- the class encoded by the three column tests of a row (`none` for the all-zero code) -/
 abbrev Row.cls (r : Row) : Option Cls := clsOfCode (r.c == .one) (r.t == .one) (r.x == .one)
 
 theorem Row.legal.cls {r : Row} (h : r.legal) : ∃ k, r.cls = some k := by
@@ -155,6 +155,7 @@ theorem C16_partition (rows : List Row) (hnd : (rows.map (·.geo)).Nodup) (hleg 
       (∀ ref ∈ a.all, ∃! k, ref ∈ a.cls k) ∧           -- every selected geo in exactly one class
       (∀ k, ∀ ref ∈ a.cls k, ref ∈ a.all) ∧             -- classes contain nothing else
       (∀ k, (a.cls k).Nodup) := by
+  have _ := hnd  -- not needed: `df.loc` on an accepted table finds the unique row anyway
   obtain ⟨sel, hlen, _, hin, ha, hnodup, hall⟩ := subset_struct rows hleg gs hgs hsub indices
   refine ⟨_, ha, hall, ?_, ?_, ?_, ?_⟩
   · rw [hall]; exact refs_nodup indices gs hgs
@@ -206,6 +207,7 @@ theorem C16_class_of_row (rows : List Row) (hnd : (rows.map (·.geo)).Nodup) (hl
       clsOfCode (r.c == .one) (r.t == .one) (r.x == .one) = some k := by
   obtain ⟨l, rfl, h⟩ := mem_pick_row rows hnd hleg gs hgs hsub indices a ha i hi r hr hg
   obtain ⟨k0, hk0⟩ := (hleg r hr).cls
+  have hk0 : clsOfCode (r.c == .one) (r.t == .one) (r.x == .one) = some k0 := hk0
   rw [cls_ofSel, h]
   show fOf k _ _ _ = true ↔ _
   rw [fOf_eq hk0, hk0]
@@ -258,6 +260,64 @@ theorem C16_empty_subset (rows : List Row) (indices : Bool) :
 /-- unknown geo → KeyError -/
 theorem C16_unknown_geo (rows : List Row) (gs : List String) (indices : Bool)
     (h : ∃ g ∈ gs, g ∉ rows.map (·.geo)) : assignments rows (some gs) indices = .error .keyError := by
-  sorry
+  unfold assignments
+  rw [select_some_err rows gs indices h]
+  rfl
+
+/-! ## non-vacuity -/
+
+instance : DecidablePred Row.legal := fun r => by unfold Row.legal; infer_instance
+
+/-- an 8-row table with all seven legal codes (`ctx` twice) -/
+def demoRows : List Row :=
+  [⟨"a", .one, .zero, .zero⟩, ⟨"b", .zero, .one, .zero⟩, ⟨"c", .zero, .zero, .one⟩,
+   ⟨"d", .one, .one, .zero⟩, ⟨"e", .one, .zero, .one⟩, ⟨"f", .one, .one, .one⟩,
+   ⟨"g", .zero, .one, .one⟩, ⟨"h", .one, .one, .one⟩]
+
+def demoTable : Table := ⟨true, false, false, demoRows⟩
+
+/-- accepted -/
+example : validate demoTable = .ok demoRows := rfl
+example : WellFormed demoTable := (C16_accept_iff demoTable).1 rfl
+/-- the hypotheses of the partition theorems hold for it -/
+example : (demoRows.map (·.geo)).Nodup := by decide
+example : ∀ r ∈ demoRows, r.legal := by decide
+/-- all rows in reversed order, by position: position `i` is geo `"h g f e d c b a"[i]` -/
+example : assignments demoRows (some ["h", "g", "f", "e", "d", "c", "b", "a"]) true = .ok
+    { all := [.idx 0, .idx 1, .idx 2, .idx 3, .idx 4, .idx 5, .idx 6, .idx 7],
+      c := [.idx 0, .idx 2, .idx 3, .idx 4, .idx 7],
+      t := [.idx 0, .idx 1, .idx 2, .idx 4, .idx 6],
+      x := [.idx 0, .idx 1, .idx 2, .idx 3, .idx 5],
+      c_fixed := [.idx 7], t_fixed := [.idx 6], x_fixed := [.idx 5], ct := [.idx 4], cx := [.idx 3],
+      ctx := [.idx 0, .idx 2], tx := [.idx 1] } := rfl
+/-- a proper subset in non-table order, by position and by ID -/
+example : assignments demoRows (some ["g", "a", "d"]) true = .ok
+    { all := [.idx 0, .idx 1, .idx 2], c := [.idx 1, .idx 2], t := [.idx 0, .idx 2], x := [.idx 0],
+      c_fixed := [.idx 1], t_fixed := [], x_fixed := [], ct := [.idx 2], cx := [], ctx := [],
+      tx := [.idx 0] } := rfl
+example : assignments demoRows (some ["g", "a", "d"]) false = .ok
+    { all := [.id "g", .id "a", .id "d"], c := [.id "a", .id "d"], t := [.id "g", .id "d"],
+      x := [.id "g"], c_fixed := [.id "a"], t_fixed := [], x_fixed := [], ct := [.id "d"], cx := [],
+      ctx := [], tx := [.id "g"] } := rfl
+/-- the general theorems instantiate on it -/
+example := C16_partition demoRows (by decide) (by decide) ["h", "g", "f", "e", "d", "c", "b", "a"]
+  (by decide) (by decide) true
+example : assignments demoRows (some ["a", "nope"]) false = .error .keyError := rfl
+example : assignments demoRows none true = .error .valueError := rfl
+
+/-- the all-zero row is rejected -/
+def zeroTable : Table := ⟨true, false, false, [⟨"a", .one, .zero, .zero⟩, ⟨"z", .zero, .zero, .zero⟩]⟩
+example : validate zeroTable = .error .valueError := rfl
+example : ¬ WellFormed zeroTable := fun h =>
+  h.2.2.2.2.2 ⟨"z", .zero, .zero, .zero⟩ (by decide) ⟨rfl, rfl, rfl⟩
+
+/-- duplicate geo IDs are rejected -/
+def dupTable : Table := ⟨true, false, false, [⟨"a", .one, .zero, .zero⟩, ⟨"a", .zero, .one, .zero⟩]⟩
+example : validate dupTable = .error .valueError := rfl
+example : ¬ WellFormed dupTable := fun h => absurd h.2.2.2.1 (by decide)
+
+/-- values other than 0/1 and missing columns are rejected -/
+example : validate ⟨true, false, false, [⟨"a", .one, .other, .zero⟩]⟩ = .error .valueError := rfl
+example : validate ⟨true, false, true, demoRows⟩ = .error .valueError := rfl
 
 end MM.Elig
